@@ -112,6 +112,8 @@ type Sim struct {
 	SearchActive bool
 	TimersLive   int
 	BusyWaiting  bool
+	LastEndT     int64
+	TimerFires   int
 	Rejected     int
 	// StaleFires counts TimerFire events whose timer was spawned by an
 	// earlier search generation than the one running when it fired.
@@ -392,6 +394,7 @@ func hookEvent(kind int, a interface{}) {
 	case verifhook.SearchEnd:
 		s.SearchActive = false
 		s.BusyWaiting = false
+		s.LastEndT = s.Now()
 		s.record(kind, uint64(s.SearchGen))
 	case verifhook.SearchRejected:
 		s.Rejected++
@@ -399,6 +402,7 @@ func hookEvent(kind int, a interface{}) {
 	case verifhook.TimerFire:
 		tok, _ := a.(uint64)
 		s.record(kind, tok)
+		s.TimerFires++
 		if tok < maxTokens && (int(s.tokenGen[tok]) != s.SearchGen || !s.SearchActive) {
 			s.StaleFires = append(s.StaleFires, Ev{T: s.Now(), Kind: kind, Tok: tok, Gen: s.SearchGen})
 		}
